@@ -9,7 +9,7 @@ import sys
 from concurrent.futures import ThreadPoolExecutor
 from pathlib import Path
 
-from harness import gen, native, wire
+from harness import core, gen, native, wire
 
 RULE = (
     "the complete flag matrix -I x --order x -C x --mode{absent,a} x -o{absent,cpp,foam,xml,json}... (1920 flag sets: "
@@ -155,7 +155,7 @@ def snapshot(d: Path) -> dict:
 
 
 def run_cli(cwd: Path, argv: list[str]):
-    env = dict(os.environ, PYTHONPATH="/repo/src", PYTHONHASHSEED="0", PYTHONDONTWRITEBYTECODE="1")
+    env = dict(os.environ, PYTHONPATH=str(core.REPO / "src"), PYTHONHASHSEED="0", PYTHONDONTWRITEBYTECODE="1")
     p = subprocess.run(["/venv/bin/python", "-B", "-m", "dictIO.cli.dict_parser"] + argv, cwd=cwd, env=env,
                        capture_output=True, text=True, timeout=120, check=False)
     return p.returncode, p.stdout, p.stderr
@@ -170,7 +170,7 @@ def run_api(cwd: Path, f: dict, src: str):
         f"DictParser.parse({src!r}, includes={k['includes']!r}, mode={k['mode']!r}, order={k['order']!r}, "
         f"comments={k['comments']!r}, scope={k['scope']!r}, output={k['output']!r})\n"
     )
-    env = dict(os.environ, PYTHONPATH="/repo/src", PYTHONHASHSEED="0", PYTHONDONTWRITEBYTECODE="1")
+    env = dict(os.environ, PYTHONPATH=str(core.REPO / "src"), PYTHONHASHSEED="0", PYTHONDONTWRITEBYTECODE="1")
     p = subprocess.run(["/venv/bin/python", "-B", "-c", code], cwd=cwd, env=env, capture_output=True, text=True, timeout=120, check=False)
     return p.returncode, p.stdout, p.stderr
 
@@ -233,7 +233,7 @@ def session_case(args):
                 "def keep(i):\n    now = snap()\n    os.makedirs(f'_steps/{i}', exist_ok=True)\n"
                 "    for n, bts in now.items():\n        if state['s'].get(n) != bts:\n            open(f'_steps/{i}/{n}','wb').write(bts)\n"
                 "    state['s'] = now\n" + "".join(steps))
-        env = dict(os.environ, PYTHONPATH="/repo/src", PYTHONHASHSEED="0", PYTHONDONTWRITEBYTECODE="1")
+        env = dict(os.environ, PYTHONPATH=str(core.REPO / "src"), PYTHONHASHSEED="0", PYTHONDONTWRITEBYTECODE="1")
         p = subprocess.run(["/venv/bin/python", "-B", "-c", code], cwd=b, env=env, capture_output=True, text=True, timeout=300, check=False)
         if p.returncode != 0:
             return ("session-raises", f"the API session failed: {p.stderr[-300:]}")
